@@ -263,7 +263,12 @@ class Application(MutableMapping[str | AppKey[Any], Any]):
             subsig = getattr(subapp, signame)
 
             async def handler(app: "Application") -> None:
-                await subsig.send(subapp)
+                if signame == "on_cleanup":
+                    # Like for the root application: one failing step must not
+                    # keep the others (deeper sub-applications) from running.
+                    await subapp.cleanup()
+                else:
+                    await subsig.send(subapp)
 
             appsig = getattr(self, signame)
             appsig.append(handler)
